@@ -37,6 +37,21 @@ pub struct Case {
     max_control: u8,
     rpcs: Vec<RpcSpec>,
     read: Script,
+    /// read boundaries placed relative to the frame layout (the read script is derived: reads of at
+    /// most 8 KiB up to each cut point, then `read`); empty = `read` alone decides
+    #[serde(default)]
+    cuts: Vec<(u8, Cut)>,
+}
+
+/// A read boundary inside frame number `.0 % rpcs.len()` of the stream.
+#[derive(Clone, Copy, Debug, Serialize, Deserialize)]
+pub enum Cut {
+    /// after the first k bytes of the frame's (multi-byte) unsigned-varint length prefix
+    InPrefix(u8),
+    /// k bytes before the end of the frame (the frame is incomplete by k bytes when decode runs)
+    BeforeEnd(u8),
+    /// k bytes after the start of the frame's payload
+    AfterPrefix(u8),
 }
 
 const LIMITS: [usize; 3] = [100, 1000, 65536];
@@ -65,9 +80,20 @@ fn read_script() -> impl Strategy<Value = Script> {
     ]
 }
 
+fn cut() -> impl Strategy<Value = (u8, Cut)> {
+    (0u8..5, prop_oneof![3 => (1u8..=2).prop_map(Cut::InPrefix), 4 => (1u8..=3).prop_map(Cut::BeforeEnd), 1 => (0u8..=2).prop_map(Cut::AfterPrefix)])
+}
+
 fn strategy() -> impl Strategy<Value = Case> {
-    (prop_oneof![5 => Just(0u8), 4 => Just(1u8), 1 => Just(2u8)], 0u8..3, 0u8..3, proptest::collection::vec(spec(), 1..=5), read_script())
-        .prop_map(|(limit, max_publish, max_control, rpcs, read)| Case { limit, max_publish, max_control, rpcs, read })
+    (
+        prop_oneof![5 => Just(0u8), 4 => Just(1u8), 1 => Just(2u8)],
+        0u8..3,
+        0u8..3,
+        proptest::collection::vec(spec(), 1..=5),
+        read_script(),
+        prop_oneof![3 => Just(vec![]), 2 => proptest::collection::vec(cut(), 1..=3)],
+    )
+        .prop_map(|(limit, max_publish, max_control, rpcs, read, cuts)| Case { limit, max_publish, max_control, rpcs, read, cuts })
 }
 
 fn marker_topic(i: usize) -> String {
@@ -207,9 +233,11 @@ enum Class {
     DontCare,
 }
 
-/// does some read deliver bytes of two different frames (a frame boundary strictly inside a read)?
-fn coalesces(script: &Script, starts: &[usize], total: usize) -> bool {
+/// stream offsets at which a read ends (every read is followed by a decode attempt); the framed
+/// reader asks for at most 8 KiB per read
+fn read_boundaries(script: &Script, total: usize) -> Vec<usize> {
     let mut off = 0usize;
+    let mut out = vec![];
     let mut steps = script.steps.iter();
     while off < total {
         let step = steps.next().copied().unwrap_or(Step::Chunk(script.default_chunk));
@@ -218,14 +246,38 @@ fn coalesces(script: &Script, starts: &[usize], total: usize) -> bool {
             Step::Chunk(0) => usize::MAX,
             Step::Chunk(n) => n as usize,
         };
-        let n = n.min(8192).min(total - off);
-        let end = off + n;
+        off += n.min(8192).min(total - off);
+        out.push(off);
+    }
+    out
+}
+
+/// does some read deliver bytes of two different frames (a frame boundary strictly inside a read)?
+fn coalesces(boundaries: &[usize], starts: &[usize]) -> bool {
+    let mut off = 0usize;
+    for &end in boundaries {
         if starts.iter().any(|&f| off < f && f < end) {
             return true;
         }
         off = end;
     }
     false
+}
+
+/// read script that puts a read boundary at each of `points` (reads of at most 8 KiB in between) and
+/// then continues with `then`
+fn script_with_cuts(points: &[usize], then: &Script) -> Script {
+    let mut steps = vec![];
+    let mut off = 0usize;
+    for &c in points {
+        while off < c {
+            let n = (c - off).min(8192);
+            steps.push(Step::Chunk(n as u16));
+            off += n;
+        }
+    }
+    steps.extend(then.steps.iter().copied());
+    Script { steps, default_chunk: then.default_chunk }
 }
 
 fn check(case: &Case) -> Outcome {
@@ -263,7 +315,44 @@ fn check(case: &Case) -> Outcome {
     if l > 10_000 && script.default_chunk != 0 && script.default_chunk < 500 {
         script.default_chunk = 997; // keep the 64 KiB cases cheap
     }
-    let coalesced = relevant >= 2 && coalesces(&script, &starts[..relevant], stream.len());
+    // frame layout: (start, length of the length prefix, end) per frame
+    let layout: Vec<(usize, usize, usize)> = starts.iter().zip(&classes).map(|(st, (_, len))| (*st, varint_len(*len), *st + varint_len(*len) + *len)).collect();
+    if !case.cuts.is_empty() {
+        let mut points: Vec<usize> = case
+            .cuts
+            .iter()
+            .filter_map(|(f, c)| {
+                let (st, pl, end) = layout[*f as usize % layout.len()];
+                match c {
+                    Cut::InPrefix(k) if pl >= 2 => Some(st + (*k as usize).clamp(1, pl - 1)),
+                    Cut::InPrefix(_) => None,
+                    Cut::BeforeEnd(k) => Some(end - (*k as usize).min(end - st - 1)),
+                    Cut::AfterPrefix(k) => Some((st + pl + *k as usize).min(end - 1)),
+                }
+            })
+            .collect();
+        points.sort_unstable();
+        points.dedup();
+        script = script_with_cuts(&points, &script);
+    }
+    let boundaries = read_boundaries(&script, stream.len());
+    let coalesced = relevant >= 2 && coalesces(&boundaries, &starts[..relevant]);
+    // generator-distribution classes: where do reads end relative to the frames that are looked at
+    let mut cut_in_prefix = false;
+    let mut cut_in_tail = false;
+    let mut near_limit_cut_in_tail = false;
+    for (i, (st, pl, end)) in layout[..relevant].iter().enumerate() {
+        if boundaries.iter().any(|b| *st < *b && *b < *st + *pl) {
+            cut_in_prefix = true;
+        }
+        if boundaries.iter().any(|b| *b + 3 >= *end && *b < *end && *b > *st) {
+            cut_in_tail = true;
+            let (c, len) = classes[i];
+            if c == Class::MustAccept && len + 2 >= l && l >= 128 {
+                near_limit_cut_in_tail = true;
+            }
+        }
+    }
 
     let (_a, b) = simio::pair(DirCfg { read: script, write: Script::whole(), capacity: None }, DirCfg::default());
     b.push_raw(&stream);
@@ -343,6 +432,15 @@ fn check(case: &Case) -> Outcome {
     }
     if stream.len() > l {
         labels.push("stream>limit");
+    }
+    if cut_in_prefix {
+        labels.push("read-ends-inside-a-multibyte-length-prefix");
+    }
+    if cut_in_tail {
+        labels.push("read-ends-in-the-last-3-bytes-of-a-frame");
+    }
+    if near_limit_cut_in_tail {
+        labels.push(if l == 65536 { "L=65536:frame-of-L-2..L-bytes-incomplete-by-1..3-bytes" } else { "L=1000:frame-of-L-2..L-bytes-incomplete-by-1..3-bytes" });
     }
     Outcome::pass_l((coalesced && delivered >= 2) || at_limit, labels)
 }
@@ -497,7 +595,7 @@ pub fn run(ctx: &mut Ctx) {
     ctx.assume("'within the publish/control limits' is taken conservatively: publish count <= max_publish_messages and subscription+control bytes including tags/length prefixes <= max_control_message_size; RPCs only over those limits are don't-care");
     ctx.check::<Case>(
         "framed-stream",
-        "streams of 1..5 RPCs (encoded size L-2..L+2 for L in {100,1000,65536}, small, publish count P-1..P+1, control bytes C-2..C+2) read through scripted chunks (whole / bytewise / generated); every RPC within the limits must be yielded in order, an RPC over max_transmit_size must yield Err; non-trivial = a read delivered bytes of >=2 frames and >=2 RPCs were yielded, or an RPC of exactly L bytes",
+        "streams of 1..5 RPCs (encoded size L-2..L+2 for L in {100,1000,65536}, small, publish count P-1..P+1, control bytes C-2..C+2) read through scripted chunks (whole / bytewise / generated / 40%: read boundaries placed 1..2 bytes into a frame's multi-byte length prefix, 1..3 bytes before a frame's end or just after its prefix, with reads of <= 8 KiB in between); every RPC within the limits must be yielded in order, an RPC over max_transmit_size must yield Err; non-trivial = a read delivered bytes of >=2 frames and >=2 RPCs were yielded, or an RPC of exactly L bytes",
         ctx.n(30_000, 750_000),
         &|| strategy().boxed(),
         &check,
